@@ -785,6 +785,57 @@ func main() {
 		out, _ := json.Marshal(plan)
 		realos.WriteFile(filepath.Join(dir, "plan.json"), out, 0644)
 		fmt.Printf("tables=%d faults=%d\n", len(plan.Tables), len(plan.Faults))
+	case "one":
+		// re-evaluate one recorded fault: {"case": ..., "fault": ...}
+		raw, err := realos.ReadFile(realos.Args[2])
+		if err != nil {
+			panic(err)
+		}
+		var rp struct {
+			Case  Case  `json:"case"`
+			Fault Fault `json:"fault"`
+		}
+		if err := json.Unmarshal(raw, &rp); err != nil {
+			panic(err)
+		}
+		b, err := writeTable(rp.Case)
+		if err != nil {
+			panic(err)
+		}
+		c := rp.Case
+		keys := []string{}
+		if n := len(c.Refs); n > 0 {
+			keys = append(keys, c.Refs[0].N, c.Refs[n/2].N, c.Refs[n-1].N, c.Refs[n-1].N+"z")
+		}
+		if n := len(c.Logs); n > 0 {
+			keys = append(keys, c.Logs[n/2].N)
+		}
+		keys = append(keys, "a")
+		oids := []string{}
+		for _, r := range c.Refs {
+			if r.V[0] == "v" || r.V[0] == "p" {
+				oids = append(oids, r.V[1])
+				if len(oids) >= 2 {
+					break
+				}
+			}
+		}
+		hs := 40
+		if c.Hash == "s256" {
+			hs = 64
+		}
+		oids = append(oids, strings.Repeat("f", hs))
+		bad := apply(b, rp.Fault)
+		if len(realos.Args) > 3 {
+			realos.WriteFile(realos.Args[3], bad, 0644)
+		}
+		fmt.Printf("START\n")
+		res := exercise(bad, keys, oids)
+		if res == "" {
+			fmt.Printf("OK\n")
+		} else {
+			fmt.Printf("BAD %s\n", res)
+		}
 	case "eval":
 		dir := realos.Args[2]
 		var from, to int
